@@ -282,45 +282,60 @@ theorem delete_rep (hc : LawfulCmp cmp) (r : Rep cmp a d ix) {key : Bytes} (hk :
     rw [delOld_height hc r hk hne, delOld_height hc r hk hne']
     exact r.sep k hk0 k' hk0' hkk
 
+/-- `Delete` of a key that is present -/
+theorem delete_present_sim (hc : LawfulCmp cmp) (r : Rep cmp a d ix) {key : Bytes} (hk : key ∈ d.level0) :
+    ∃ a', delete cmp a key = some (a', true) ∧ Rep cmp a' (delOld d key) ix ∧ a'.gen = a.gen ∧
+      a'.kvData = a.kvData ∧ Unlinked cmp a d ix key a'.nodeData := by
+  obtain ⟨pn', g1, glen, _, g4⟩ := findGE_sim r key true
+  obtain ⟨he, hn⟩ := findGE_exact hc r key true
+  have hpl : pn'.length = tMaxHeight := by rw [glen, r.pn]
+  have hex : (MemDB.findGE cmp d key true).exact = true := by rw [he]; simpa using hk
+  rw [hex, hn hk] at g1
+  have hpath : ∀ j, j < a.maxHeight → pn'[j]? = some (nix ix (pth cmp d key j)) := by
+    intro j hj
+    have := (g4 rfl).2 j (by omega)
+    rw [MemDB.findGE_prev hc r.inv key] at this
+    exact this
+  obtain ⟨nd', u, U⟩ := delete_arrays hc r hk pn' hpl hpath
+  have hnk := r.node key hk
+  have hf : ∀ f, f < nNext → nd'[ix key + f]? = a.nodeData[ix key + f]? := by
+    intro f hf
+    refine U.same _ ?_
+    intro j hj
+    obtain ⟨H', o', hH'⟩ := r.pth_owner (cmp := cmp) key (i := j)
+      (by have := height_le_length d key; have := r.inv.height; omega)
+    exact r.field_ne_slot hk hf o' hH'
+  have e4 := nNext_eq
+  have e2 := nVal_eq
+  have e1 := nKey_eq
+  refine ⟨_, ?_, delete_rep hc r hk pn' hpl U, rfl, rfl, U⟩
+  have hH : ¬ d.height key > pn'.length := by
+    have := height_le_length d key; have := r.inv.height; omega
+  have k1 : nd'[ix key + nKey]? = some key.length := by rw [hf nKey (by omega)]; exact hnk.klen
+  have k2 : nd'[ix key + nVal]? = some (d.value key).length := by rw [hf nVal (by omega)]; exact hnk.vlen
+  simp only [delete, g1, Option.bind_some, Option.bind_eq_bind, nix_some, Bool.not_true, Bool.false_eq_true,
+    if_false, hnk.height, hH, u, k1, k2]
+
+/-- `Delete` of a key that is absent: only the scratch `prevNode` changes -/
+theorem delete_absent_sim (hc : LawfulCmp cmp) (r : Rep cmp a d ix) {key : Bytes} (hk : key ∉ d.level0) :
+    ∃ pn', delete cmp a key = some ({ a with prevNode := pn' }, false) ∧ pn'.length = a.prevNode.length := by
+  obtain ⟨pn', g1, glen, _, _⟩ := findGE_sim r key true
+  obtain ⟨he, _⟩ := findGE_exact hc r key true
+  have hex : (MemDB.findGE cmp d key true).exact = false := by rw [he]; simpa using hk
+  rw [hex] at g1
+  refine ⟨pn', ?_, glen⟩
+  simp only [delete, g1, Option.bind_some, Option.bind_eq_bind, Bool.not_false, if_true]
+
 /-- `Delete` on a represented table: the same answer as the ideal `Delete`, and the result represents the ideal
 result (same node indices: nothing moves, the dead node stays where it was) -/
 theorem delete_sim (hc : LawfulCmp cmp) (r : Rep cmp a d ix) (key : Bytes) :
     ∃ a', delete cmp a key = some (a', (MemDB.delete cmp d key).2) ∧ Rep cmp a' (MemDB.delete cmp d key).1 ix := by
-  obtain ⟨pn', g1, glen, _, g4⟩ := findGE_sim r key true
-  obtain ⟨he, hn⟩ := findGE_exact hc r key true
-  have hpl : pn'.length = tMaxHeight := by rw [glen, r.pn]
   by_cases hk : key ∈ d.level0
-  · have hex : (MemDB.findGE cmp d key true).exact = true := by rw [he]; simpa using hk
-    rw [hex, hn hk] at g1
-    have hpath : ∀ j, j < a.maxHeight → pn'[j]? = some (nix ix (pth cmp d key j)) := by
-      intro j hj
-      have := (g4 rfl).2 j (by omega)
-      rw [MemDB.findGE_prev hc r.inv key] at this
-      exact this
-    obtain ⟨nd', u, U⟩ := delete_arrays hc r hk pn' hpl hpath
-    have hnk := r.node key hk
-    have hf : ∀ f, f < nNext → nd'[ix key + f]? = a.nodeData[ix key + f]? := by
-      intro f hf
-      refine U.same _ ?_
-      intro j hj
-      obtain ⟨H', o', hH'⟩ := r.pth_owner (cmp := cmp) key (i := j)
-        (by have := height_le_length d key; have := r.inv.height; omega)
-      exact r.field_ne_slot hk hf o' hH'
-    have e4 := nNext_eq
-    have e2 := nVal_eq
-    have e1 := nKey_eq
+  · obtain ⟨a', e, r', _⟩ := delete_present_sim hc r hk
     rw [MemDB.delete_present hc r.inv hk]
-    refine ⟨_, ?_, delete_rep hc r hk pn' hpl U⟩
-    have hH : ¬ d.height key > pn'.length := by
-      have := height_le_length d key; have := r.inv.height; omega
-    have k1 : nd'[ix key + nKey]? = some key.length := by rw [hf nKey (by omega)]; exact hnk.klen
-    have k2 : nd'[ix key + nVal]? = some (d.value key).length := by rw [hf nVal (by omega)]; exact hnk.vlen
-    simp only [delete, g1, Option.bind_some, Option.bind_eq_bind, nix_some, Bool.not_true, Bool.false_eq_true,
-      if_false, hnk.height, hH, u, k1, k2]
-  · have hex : (MemDB.findGE cmp d key true).exact = false := by rw [he]; simpa using hk
-    rw [hex] at g1
+    exact ⟨a', e, r'⟩
+  · obtain ⟨pn', e, hl⟩ := delete_absent_sim hc r hk
     rw [MemDB.delete_absent hc r.inv hk]
-    refine ⟨{ a with prevNode := pn' }, ?_, r.setPrev pn' glen⟩
-    simp only [delete, g1, Option.bind_some, Option.bind_eq_bind, Bool.not_false, if_true]
+    exact ⟨_, e, r.setPrev pn' hl⟩
 
 end GoLevel.MemArr
